@@ -45,6 +45,18 @@ VarBinds(b, p, e, acc, cls) ==
        IF r.c >= Free THEN [c |-> r.c, why |-> r.why, vbs |-> acc]
        ELSE VarBinds(b, r.nx, e, Append(acc, r.vb), MaxC(cls, r.c))
 
+(* is the body of a (Report) PDU a well-formed request-id / error-status / error-index / varbind-list? *)
+ReportBodyOK(b, p, e) ==
+  LET h1 == TLVAt(b, p, e) IN
+  /\ IsTag(h1, CUniversal, FALSE, 2)
+  /\ LET h2 == TLVAt(b, h1.nx, e) IN
+     /\ IsTag(h2, CUniversal, FALSE, 2)
+     /\ LET h3 == TLVAt(b, h2.nx, e) IN
+        /\ IsTag(h3, CUniversal, FALSE, 2)
+        /\ LET h4 == TLVAt(b, h3.nx, e) IN
+           /\ IsTag(h4, CUniversal, TRUE, 16) /\ h4.nx = e + 1
+           /\ VarBinds(b, h4.cs, h4.cs + h4.cl - 1, <<>>, Accept).c < Free
+
 (* PDU at position p; must end exactly at e *)
 PduAt(b, p, e) ==
   LET h == TLVAt(b, p, e) IN
@@ -53,7 +65,8 @@ PduAt(b, p, e) ==
   ELSE IF h.tag \notin KnownPdu THEN Rej("unknown-pdu")
   ELSE LET pe == h.cs + h.cl - 1
            h1 == TLVAt(b, h.cs, pe) IN
-       IF h.tag = PduReport /\ FALSE THEN Rej("x")
+       IF h.tag = PduReport /\ ~ReportBodyOK(b, h.cs, pe)
+         THEN [c |-> Free, why |-> "report-body"]      \* the body of a Report is not interpreted by a client: only totality
        ELSE IF ~IsTag(h1, CUniversal, FALSE, 2) THEN Rej("reqid")
        ELSE LET h2 == TLVAt(b, h1.nx, pe) IN
        IF ~IsTag(h2, CUniversal, FALSE, 2) THEN Rej("f2")
@@ -68,11 +81,11 @@ PduAt(b, p, e) ==
                 vs == VarBinds(b, h4.cs, h4.cs + h4.cl - 1, <<>>, Accept)
                 cls == MaxC(MaxC(MaxC(LenClass(h), LenClass(h1)), MaxC(LenClass(h2), LenClass(h3))),
                             MaxC(MaxC(LenClass(h4), i1.c), MaxC(MaxC(i2.c, i3.c), vs.c)))
-                trailingTop == IF h.nx # e + 1 THEN Reject ELSE Accept
+                trailingTop == IF h.nx # e + 1 THEN Lenient ELSE Accept      \* octets after the PDU but inside the enclosing SEQUENCE
                 \* request PDUs conventionally bind every name to NULL; another value is tolerated or refused
                 reqVals == IF h.tag \in {PduGet, PduGetNext, PduGetBulk}
                               /\ \E i \in 1..Len(vs.vbs) : vs.vbs[i].val.vt # "null" THEN Lenient ELSE Accept
-            IN [c |-> MaxC(MaxC(cls, reqVals), trailingTop), why |-> IF trailingTop = Reject THEN "trailing-after-pdu" ELSE vs.why,
+            IN [c |-> MaxC(MaxC(cls, reqVals), trailingTop), why |-> vs.why,
                 pdu |-> [ptype |-> h.tag, reqid |-> i1.v, f2 |-> i2.v, f3 |-> i3.v, vbs |-> vs.vbs]]
 
 Zero == [neg |-> FALSE, mag |-> <<>>]
@@ -130,7 +143,7 @@ UsmAt(b, p, e) ==        \* content of msgSecurityParameters: exactly one SEQUEN
 ScopedAt(b, p, e, exact) ==
   LET h == TLVAt(b, p, e) IN
   IF ~IsTag(h, CUniversal, TRUE, 16) THEN Rej("scoped-seq")
-  ELSE IF exact /\ h.nx # e + 1 THEN Rej("trailing-after-message")
+  ELSE IF FALSE THEN Rej("x")
   ELSE LET se == h.cs + h.cl - 1
            h1 == TLVAt(b, h.cs, se) IN
   IF ~IsTag(h1, CUniversal, FALSE, 4) THEN Rej("ctx-engine")
@@ -139,7 +152,7 @@ ScopedAt(b, p, e, exact) ==
   ELSE LET p1 == PduAt(b, h2.nx, se) IN
   IF p1.c = Reject THEN Rej(p1.why)
   ELSE IF p1.c = Free THEN [c |-> Free, why |-> p1.why]
-  ELSE [c |-> MaxC(MaxC(LenClass(h), LenClass(h1)), MaxC(LenClass(h2), p1.c)), why |-> "",
+  ELSE [c |-> MaxC(MaxC(MaxC(LenClass(h), LenClass(h1)), MaxC(LenClass(h2), p1.c)), IF exact /\ h.nx # e + 1 THEN Lenient ELSE Accept), why |-> "",
         padLen |-> e + 1 - h.nx,                        \* octets after the scoped PDU (padding when decrypted)
         scoped |-> [ctxEngine |-> Content(b, h1), ctxName |-> Content(b, h2), pdu |-> p1.pdu]]
 
@@ -183,8 +196,8 @@ DecodeV3(b) ==
        IN
   IF ~hd.ok THEN Rej(hd.why)
   ELSE IF IsTag(hd, CUniversal, FALSE, 4)
-    THEN (IF hd.nx # e + 1 THEN Rej("trailing-after-message")
-          ELSE [c |-> MaxC(base, LenClass(hd)), why |-> "",
+    THEN (IF FALSE THEN Rej("x")
+          ELSE [c |-> MaxC(MaxC(base, LenClass(hd)), IF hd.nx # e + 1 THEN Lenient ELSE Accept), why |-> "",   \* octets after msgData inside the message
                 m |-> [ver |-> "v3", hdr |-> hdr, usm |-> u.usm, enc |-> TRUE, data |-> Content(b, hd)]])
     ELSE LET s == ScopedAt(b, hs.nx, e, TRUE) IN
          IF s.c = Reject THEN Rej(s.why)
